@@ -75,6 +75,9 @@ const sysTimeout = 30 * time.Second
 // qCorruptActive: the running scenario returns damaged row data from one read (see runSysScenario)
 var qCorruptActive atomic.Bool
 
+// qHandoffSeq rotates the endings of the hand-off scenarios
+var qHandoffSeq int
+
 // qHangSeen: a query of this run did not come to an end; the scenarios that exist to provoke that are not repeated
 var qHangSeen bool
 
@@ -364,7 +367,15 @@ func runSysScenario(c *Ctx, fixed bool, kind string) (term string, desc map[stri
 		case "handoff":
 			p.mode, p.ctxKind = "handoff", "std"
 			// closeheld: Close while the other queries keep every slot; the parked workers never get one
-			p.after = []string{"cancel", "close", "closeheld", "closeheld"}[c.intn(4)]
+			p.after = []string{"cancel", "close", "closeheld", "closeheld"}[qHandoffSeq%4]
+			qHandoffSeq++
+			if p.after == "closeheld" && qHandoffSeq%8 < 4 {
+				// without bloom conditions the file stage needs no slot: it dispatches, and it is the block workers
+				// that park on the full semaphore (with conditions the file worker parks first and they stay idle)
+				for !strings.HasPrefix(p.sq.name, "all") {
+					p.sq = c.genSysQuery()
+				}
+			}
 		case "bigfilter":
 			p.mode = []string{"drain", "drain", "slow", "cancelAt", "closeAt"}[c.intn(5)]
 			for p.sq.hasPre || (!strings.HasPrefix(p.sq.name, "token") && !strings.HasPrefix(p.sq.name, "fieldtoken") && !strings.HasPrefix(p.sq.name, "field:")) {
